@@ -141,3 +141,19 @@ Theorem C19_pytensor_grad :
     length (pytensor_grad R n A g) = n /\ dotu R g (mv R A d) = dotu R (pytensor_grad R n A g) d.
 Proof. intros; split; [apply pytensor_grad_length; auto | apply vjp_is_adjoint; auto]. Qed.
 Print Assumptions C19_pytensor_grad.
+
+(* PyTensorOperator's forward Op and the gradient Op it builds belong to different
+   classes, so PyTensor's graph merge can never identify Op(v) with Op^H(v) ... *)
+Theorem C19_pytensor_forward_gradient_distinct :
+  forall (R : Type) dims dimsd (A AH : list (list R)),
+    pt_eqb (pt_wrap dims dimsd A) (pt_gradient_op dims dimsd AH) = false.
+Proof. exact @pt_forward_gradient_distinct. Qed.
+Print Assumptions C19_pytensor_forward_gradient_distinct.
+(* ... but the statement "equal Ops compute the same map" (what the merge pass relies
+   on) is false of the code: __props__ = (dims, dimsd, shape) leaves the wrapped
+   operator out, so wrappers of two different same-shaped operators are equal. *)
+Theorem C19_pytensor_op_identity_refuted :
+  exists (a b : pt_op QcR) x, pt_eqb a b = true /\ map this (mv QcR (pt_mat a) x) <> map this (mv QcR (pt_mat b) x).
+Proof. exists (pt_wrap [2] [2] [[qz 1; qz 2]; [qz 3; qz 4]]), (pt_wrap [2] [2] [[qz 0; qz 1]; [qz 5; qz (-2)]]), [qz 1; qz (-1)].
+  split; [reflexivity | vm_compute; discriminate]. Qed.
+Print Assumptions C19_pytensor_op_identity_refuted.
